@@ -196,6 +196,11 @@ def gen_plan(seed, tier, index):
             b['forced'] = r.randrange(1 << 30)      # arbitrary target prefix instead of the greedy path
         batches.append(b)
         prev = b
+    if r.random() < 0.03:
+        # a very large batch of very short lines (process_lines builds up to 480*batch_size // width lines per batch)
+        batches.insert(r.randrange(len(batches) + 1), {'n': r.choice([255, 256, 257, 512]), 'w': r.choice([16, 32]),
+                                                       'seed': r.randrange(1 << 30), 'cached': True, 'huge': True})
+        m['dim'], m['heads'], m['dec_layers'], m['ff'] = 8, r.choice([1, 2]), min(m['dec_layers'], 2), 16
     cap = max(b['w'] for b in batches) // 4
     m['max_seq_len'] = cap + 2 if r.random() < 0.4 else 4 * cap + 8
     if r.random() < 0.06:
@@ -331,7 +336,9 @@ def check_batch(res, ctx, k, b, x, outs, logits):
             return False
     # --- oracle 4: every line alone (fresh copy, cached) = the line inside its batch
     if not near_tie and b['n'] > 1:
-        for n in range(b['n']):
+        if b.get('huge'):
+            res.probe('huge_batch_checked')
+        for n in (range(b['n']) if not b.get('huge') else range(0, b['n'], 16)):
             eng_1 = make_engine(copy.deepcopy(pristine), m['nsym'])
             eng_1.net.dec_out_proj.cap = cap_steps + 3
             o1, l1 = sut('transcribe_batch(line alone)', eng_1.transcribe_batch, x[n:n + 1], is_cached=True)
